@@ -691,7 +691,7 @@ func c19Helpers(rep *vrep.Report, seed int64) {
 		{"cryptoutil.AESGCMDecrypt(key)", func(in []byte) { _, _ = cryptoutil.AESGCMDecrypt(in, validAES) }},
 		{"cryptoutil.KeySliceToArray", func(in []byte) { _, _ = cryptoutil.KeySliceToArray(in) }},
 		{"cryptoutil.NonceSliceToArray", func(in []byte) { _, _ = cryptoutil.NonceSliceToArray(in) }},
-		{"openGroupEnvelope", func(in []byte) { _, _, _ = openGroupEnvelope(g, in) }},
+		{"openGroupEnvelope", func(in []byte) { _, _, _ = vOpenGroupEnvelope(g, in) }},
 		{"SecretStore.OpenEnvelopeHeaders", func(in []byte) { _, _, _ = ss.OpenEnvelopeHeaders(in, g) }},
 		{"SecretStore.OpenOutOfStoreMessage", func(in []byte) { _, _, _, _, _ = ss.OpenOutOfStoreMessage(context.Background(), in) }},
 		{"cid.Cast", func(in []byte) { _, _ = cid.Cast(in) }},
